@@ -44,7 +44,7 @@ func init() {
 			"model.(*T0x0200AdditionDetails).decode", "model.(*T0x0200AdditionDetails).parse",
 			"utils.BCD2Time", "model.(*T0x0704).Parse",
 		},
-		Decided: "in a 0x0704 batch every item is decoded into its own record (the additional-information table of the item being appended is not the table of an earlier item); offsets and byte order of the 28-byte base block, the BCD time rendering, each of the 32 alarm flags, 21 single-bit status flags, " +
+		Decided: "tyre-pressure item 0x05: tyre k has a value exactly when byte k is non-zero and the value is that byte (all 256 keys); in a 0x0704 batch every item is decoded into its own record (the additional-information table of the item being appended is not the table of an earlier item); offsets and byte order of the 28-byte base block, the BCD time rendering, each of the 32 alarm flags, 21 single-bit status flags, " +
 			"15 extended-vehicle-signal flags and 2 IO flags as 'field is true exactly when its bit is set', for all inputs and any prior receiver state",
 		Undecided: []string{"the two-bit Cargo field is not claimed (the property covers single-bit flags)"},
 	})
@@ -121,7 +121,7 @@ func init() {
 			"model.(*T0x0102).ReplyBody", "model.(*P0x8100).Encode", "model.(*T0x0100).ReplyBody", "model.(*T0x0801).ReplyBody",
 			"service.(*connection).curSeq",
 		},
-		Decided: "reply bodies (general response echoing serial and ID with result 0; authentication result 0 exactly when the code equals the phone number; registration response with serial, 0 and the phone as code; " +
+		Decided: "order within one read (packageParse.parse): a message completed from sub-packages directly follows the sub-package that completed it in the list handed to the reader loop, so its reply precedes those of later frames of the same read; reply bodies (general response echoing serial and ID with result 0; authentication result 0 exactly when the code equals the phone number; registration response with serial, 0 and the phone as code; " +
 			"multimedia response echoing the multimedia ID), reply IDs and has-reply flags per type, and the serial counter (value used, then +1 modulo 2^16)",
 		Undecided: []string{"one reply per request, ordering and callbacks across reader/writer goroutines and channels", "defaultReplyEvent's dynamic dispatch through the Handler interface (the handler table is a map literal)"},
 	})
@@ -158,9 +158,9 @@ func init() {
 		Decided: "per call, over a ghost clock that time.Now() advances monotonically: supplementarySubPackage builds, for every transfer whose last arrival is more than 5 s before the call's time.Now(), one 0x8003 body " +
 			"holding the first packet's serial number (the header add() stored), the count, and exactly the package numbers of the empty slots in strictly ascending order (none missing, none extra), encoded big-endian at 3+2i, " +
 			"with reply ID 0x8003 and the fragmentation bit cleared; it restarts that transfer's idle clock (so a second call within 5 s re-requests nothing for it) and leaves every other transfer's clock and the key set untouched; " +
-			"deleteTimeoutPackage removes exactly the transfers begun more than 60 s before its time.Now() from both tables and keeps all others; table invariants (same keys, slot count = announced total, distinct bookkeeping records) are preserved by add, remove, completePack and both functions",
+			"deleteTimeoutPackage removes exactly the transfers begun more than 60 s before its time.Now() from both tables and keeps all others; in packageParse.parse (verified as the composition of unpack, completePack and these two, all by contract with verified frames) no pending transfer is older than 60 s when the re-requests are built; table invariants (same keys, slot count = announced total, distinct bookkeeping records) are preserved by add, remove, completePack and both functions",
 		Undecided: []string{
-			"that the re-request is triggered by the next inbound data and written once to that terminal: parse's composition and connection.reader -> reissuePackChan -> subPackReplyEvent (goroutines, channels)",
+			"that the re-request is written once to that terminal: connection.reader -> reissuePackChan -> subPackReplyEvent (goroutines, channels); parse's own composition is decided (C14.swept: the sweep precedes the re-requests)",
 			"the number of returned messages equals the number of stale transfers (a cardinality over the map iteration)",
 			"the returned Message's decoded header (Decode of the just-encoded frame; needs the Decode-after-Encode inverse, see C01)",
 			"a discarded transfer is never delivered later: whole-history statement (per call: its slots are gone from both tables)",
@@ -284,7 +284,7 @@ func init() {
 		ID:    "C04",
 		Title: "Stream framing is independent of TCP segmentation",
 		Roots: []string{"service.(*packageParse).unpack"},
-		Decided: "per call of unpack, for every pending buffer and every read: (1) each returned message carries exactly one frame (its raw bytes start and end with 0x7e and contain no other 0x7e), owns those bytes (C09) and is the decoding of exactly those bytes (Decode's contract, C02); " +
+		Decided: "nothing is dropped when a call delivers no message (every byte still pending) or exactly one (pending bytes plus its raw frame account for every byte); per call of unpack, for every pending buffer and every read: (1) each returned message carries exactly one frame (its raw bytes start and end with 0x7e and contain no other 0x7e), owns those bytes (C09) and is the decoding of exactly those bytes (Decode's contract, C02); " +
 			"(2) conservation, stated inductively: the pending bytes are at every point a suffix of (old pending bytes ++ read); every message is built from the bytes at the head of the pending buffer, which then advances by exactly their number; on the fast path the single message is built from the whole read and nothing was pending; " +
 			"(3) only single-frame-shaped byte strings are handed to Decode, so an error is the error of one frame and never of two frames merged; (4) when unpack returns without error no complete frame is left at the head of the pending bytes: a frame is delivered by the call in which its closing delimiter arrives. " +
 			"Together: what a call returns and leaves pending is determined by the concatenation of the old pending bytes and the read alone",
